@@ -10,6 +10,7 @@ mod errs;
 mod listparse;
 mod shape_recv;
 mod shapes;
+mod usage;
 mod util;
 
 fn dispatch(case: &Value) -> Value {
@@ -21,6 +22,7 @@ fn dispatch(case: &Value) -> Value {
         "int_sweep" => conv::run_int_sweep(case),
         "parse_list" => listparse::run_parse_list(case),
         "shape" => shapes::run_shape(case),
+        "usage" => usage::run_usage(case),
         _ => json!({"error": format!("unknown op {}", op)}),
     }
 }
